@@ -20,6 +20,11 @@ TRUSTED_TEXT = {
     "E2": "E2: a task awaiting an asyncio future resumes only when it is done - with its result, its exception, CancelledError because the future was cancelled, or CancelledError although the future already has a result (Task.cancel arrived before the wake-up ran); the environment may cancel a pending future at any time",
     "E3": "E3: Task.cancel() cancels a pending waiter future or sets _must_cancel; CancelledError enters a coroutine only at a suspension point",
     "E7": "E7: asyncio.Event.wait() returns only if the flag is set, set() wakes all current waiters, no spurious wake-ups; the engine's z3 models of deque / set / OrderedDict are taken to behave like CPython's (not cross-validated mechanically)",
+    "A-own": "A-own: a lock handed to Condition(lock) is acquired and released only through the condition while the condition is in use (unchecked precondition from the call sites)",
+    "A-event-private": "A-event-private: the asyncio.Event inside an anyio Event wrapper is an owned sub-object (heap model gives it its owner's identity); justified by the checked frame obligations Event/frame:* (assigned only in Event.__init__, reached only through self, never cleared), not by a mechanised ownership calculus",
+    "A-dispatch": "A-dispatch: the front-end constructors Event()/Lock()/get_async_backend().create_event() dispatch to the asyncio backend classes (not under contract)",
+    "A-shield": "A-shield: `with CancelScope(shield=True)` around the re-acquire is a private scope nobody can cancel, so its __exit__ swallows nothing; the shield only removes AnyIO cancellation from the outcomes of the enclosed await (native Task.cancel stays possible and is explored)",
+    "A-taskinfo": "A-taskinfo: TaskInfo equality is task identity (TaskInfo.__eq__ compares id(task); id reuse after garbage collection ignored)",
     "A-borrower": "A-borrower: one borrower identity is used by at most one in-flight acquire_on_behalf_of and is not released by a third party while that call is suspended (precondition taken from the call sites, unchecked)",
 }
 ALWAYS_TRUSTED = [
@@ -74,6 +79,13 @@ def finish(prop, tier, results, wall, verbose=False, partial=False):
                 e["refuted"].append(o)
             else:
                 e["unknown"].append(o)
+    # a `cover` (vacuity guard) holds when the exit is reachable on at least one path: a path whose condition the
+    # solver finds contradictory only after the (short) feasibility budget is an infeasible path, not a violation
+    for e in by_name.values():
+        if e["kind"] == "cover" and e["proved"] > 0 and e["refuted"]:
+            e["infeasible_paths"] = len(e["refuted"])
+            e["instances"] -= len(e["refuted"])
+            e["refuted"] = []
     total = len(by_name)
     discharged = sum(1 for e in by_name.values() if e["proved"] == e["instances"])
     refuted = [e for e in by_name.values() if e["refuted"]]
